@@ -87,7 +87,8 @@ def _worker(args):
         res["path_samples"] = ctx.path_samples
         res["notes"] = ctx.notes
         res["vc_dump"] = eng.vc_dump or []
-        if eng.vc_unknown or eng.branch_unknown:
+        if eng.vc_unknown:
+            # an undecided VC is never "held"; an undecided *branch* was explored on both sides (sound) and is only counted
             res["inconclusive"] = (res["inconclusive"] or "") + " unknown vcs=%d branches=%d" % (eng.vc_unknown, eng.branch_unknown)
     except BaseException as ex:      # harness error: never a verdict
         res["error"] = "%s: %s\n%s" % (type(ex).__name__, ex, traceback.format_exc()[-3000:])
@@ -415,7 +416,8 @@ def run_check(pid, tier, seed):
             "vcs": {"discharged": tot("vcs"), "violated": len(viol_all), "replayed": len(viol), "unknown": tot("vc_unknown")},
             "paths": {"completed": tot("paths"), "infeasible_cut": tot("aborted"), "live": tot("live_paths")},
             "solver": {"name": "z3 " + __import__("z3").get_version_string(), "queries": tot("queries"),
-                       "wall_s": round(tot("solver_s"), 2), "stage2_queries": tot("stage2")},
+                       "wall_s": round(tot("solver_s"), 2), "stage2_queries": tot("stage2"),
+                       "branches_undecided_explored_both_ways": tot("branch_unknown")},
             "notes": notes,
             "known_findings_excluded": excl,
             "cross_checks": cross,
